@@ -11,8 +11,44 @@
 import YashModel.Redir.World
 namespace YashModel.Redir
 
-/-- same finite map (trailing empty slots do not count) -/
-def sameTable (a b : FdTable) : Bool := a.openFds == b.openFds
+/-! ### the POSIX meaning of the operators (XCU 2.7 Redirection), declaratively -/
+
+/-- `open(2)` arguments POSIX prescribes per file operator: `<` O_RDONLY; `>` and `>|`
+    O_WRONLY|O_CREAT|O_TRUNC; `>>` O_WRONLY|O_CREAT|O_APPEND; `<>` O_RDWR|O_CREAT -/
+def posixOpenArgs : FileOp → Generated.RedirConsts.OpenArgs
+  | .fileIn => ⟨.ro, false, false, false, false⟩
+  | .fileOut => ⟨.wo, true, true, false, false⟩
+  | .fileClobber => ⟨.wo, true, true, false, false⟩
+  | .fileAppend => ⟨.wo, true, false, true, false⟩
+  | .fileInOut => ⟨.rw, true, false, false, false⟩
+
+/-- the two ways `>` may open its file under `noclobber` without ever truncating an existing regular
+    file: create it exclusively (O_CREAT|O_EXCL), or open what exists without O_TRUNC provided it
+    turns out not to be a regular file -/
+def NoclobberOpen {W : Type} (o : Oracle W) (w2 : W) (args : Generated.RedirConsts.OpenArgs) (ofd : Nat) : Prop :=
+  args = ⟨.wo, true, false, false, true⟩ ∨ (args = ⟨.wo, false, false, false, false⟩ ∧ o.isRegular w2 ofd = false)
+
+/-- What descriptor `r.fd` is after redirection `r` has been applied, in terms of the table `t`
+    before it: a new, non-CLOEXEC descriptor on the open file description an `open` with the POSIX
+    arguments of the operator returned; a non-CLOEXEC duplicate of descriptor `n`; closed; a
+    descriptor on the here-document's temporary file.  Nothing else can succeed. -/
+def Meaning {W : Type} (o : Oracle W) (t : FdTable) (r : Redir) (after : Option FdEntry) : Prop :=
+  match r.body with
+  | .file op path | .fileCs op path =>
+    ∃ w1 w2 args ofd, o.resolve w1 { path := path, args := args } = (w2, .ok ofd) ∧
+      after = some { ofd := ofd, cloexec := false } ∧
+      (args = posixOpenArgs op ∨ (op = .fileOut ∧ (∃ w0, o.noclobber w0 = true) ∧ NoclobberOpen o w2 args ofd))
+  | .dup input (.fd n) =>
+    ∃ e0, t.get n = some e0 ∧ after = some { ofd := e0.ofd, cloexec := false } ∧
+      (∃ w1, (if input then (o.access w1 e0.ofd).1 else (o.access w1 e0.ofd).2) = true)
+  | .dup _ .closeIt => after = none
+  | .hereDoc _ => ∃ w1, after = some { ofd := (o.tmpfile w1).2, cloexec := false }
+  | _ => False
+
+/-- same finite map (trailing empty slots do not count): every descriptor up to the longer slot list
+    has the same entry (`sameTable_iff` in EndToEnd.lean: this is `∀ fd, a.get fd = b.get fd`) -/
+def sameTable (a b : FdTable) : Bool :=
+  (List.range (max a.slots.length b.slots.length)).all fun fd => decide (a.get fd = b.get fd)
 
 def internalOk (t : FdTable) (saved : List SavedFd) : Bool :=
   saved.all fun s => match s.save with
